@@ -76,7 +76,16 @@ def sweeps(tier):
              {'variant': 'tcp', 'tid_start': 0, 'wrap': 70000, 'ops': []}]
     if tier == 'thorough':
         cases += [{'variant': 'tcp', 'tid_start': s, 'wrap': 140000, 'ops': []} for s in (0, 0xFFFE, 12345)]
-    return [('id-space-wrap-with-one-long-outstanding-request', cases, False)]
+    out = [('id-space-wrap-with-one-long-outstanding-request', cases, False)]
+    # many requests outstanding at once, answered newest first / in a scrambled order
+    many = []
+    for nreq in ((40, 300, 1200) if tier == 'thorough' else (40, 300)):
+        for variant in ('tcp', 'udp', 'rtu'):
+            ops = [['req', 1 + i % 247, 1 + i % 6] for i in range(nreq)]
+            ops += [['reply', (nreq - 1 - i) if variant != 'rtu' else 0] for i in range(nreq)] if nreq <= 300 else [['reply', (i * 7919) % 9973] for i in range(nreq)]
+            many.append({'variant': variant, 'tid_start': 65000, 'ops': ops, 'ctor': 'base', 'framer_as_class': False})
+    out.append(('many-outstanding-requests', many, False))
+    return out
 
 
 def run_case(case):
